@@ -3,6 +3,7 @@ package main
 // Registration rules: PC-REG, REG-PAIR, REG-OVERWRITE, BT-REG, SG-REG.
 
 import (
+	"reflect"
 	"fmt"
 	"go/token"
 	"go/types"
@@ -550,7 +551,9 @@ func ruleSGReg(c *Ctx) {
 		}
 	}
 	key := fnKey(fn)
-	if look == nil {
+	if okF, good, why := sgRegByFold(P); okF {
+		c.Check(good, key+"/registry-first", P.pos(fn.Pos()), "generation folded for a plain, a pointer, a slice, a map and a struct type: the schema registry is looked up with the type itself before anything else, a hit is returned as it stands, and element and field types are looked up the same way", why)
+	} else if look == nil {
 		c.Bad(key+"/registry-first", P.pos(fn.Pos()), "schemaForType does not consult the schema registry for its type")
 	} else {
 		// every Kind() call is dominated by the lookup's not-found edge
@@ -608,4 +611,151 @@ func ruleSGReg(c *Ctx) {
 		}
 	}
 	_ = strings.Contains
+}
+
+// sgRegByFold decides SG-REG's registry-first clause by folding schema
+// generation (E-CP): for several shapes of type, in every outcome the first
+// map consulted is the schema registry with the type itself as key; when that
+// lookup is decided "found" the result is exactly the looked-up schema; when
+// not, the element (or field) type is looked up in the registry in turn.
+func sgRegByFold(P *Program) (folded, good bool, why string) {
+	root := schemaRootFn(P)
+	if root == nil || schemaRegistryKey == "" {
+		return false, false, ""
+	}
+	isRegistry := func(v cpVal) bool {
+		u, ok := v.(cpUnk)
+		return ok && strings.HasPrefix(u.ID, "*global:") && strings.HasSuffix(u.ID, "."+strings.SplitN(schemaRegistryKey, ".", 2)[1])
+	}
+	inner := cpRTypeOfKind(reflect.Int64, false)
+	strct := cpRTypeOfKind(reflect.Struct, false)
+	strct.Fields = []cpRField{{Name: "F", Tag: `json:"f"`, Type: inner}}
+	cases := []struct {
+		name string
+		rt   *cpRType
+		sub  *cpRType
+	}{
+		{"int64", cpRTypeOfKind(reflect.Int64, false), nil},
+		{"*int64", &cpRType{ID: "*int64", Kind: int64(reflect.Ptr), Elem: inner, Size: 8}, inner},
+		{"[]int64", &cpRType{ID: "[]int64", Kind: int64(reflect.Slice), Elem: inner, Size: 24}, inner},
+		{"map[string]int64", &cpRType{ID: "map[string]int64", Kind: int64(reflect.Map), Elem: inner, Key: cpRTypeOfKind(reflect.String, false), Size: 8}, inner},
+		{"struct{F int64}", strct, inner},
+	}
+	good = true
+	for _, k := range cases {
+		outs, _, ok, _ := cpFoldOpt(P, root, []cpVal{k.rt}, nil)
+		if !ok {
+			return false, false, ""
+		}
+		sawHit := false
+		for _, o := range outs {
+			if o.Panics || len(o.Results) != 2 {
+				continue
+			}
+			var looks []cpCall
+			for _, cl := range o.Calls {
+				if cl.Callee == "maplookup" {
+					looks = append(looks, cl)
+				}
+			}
+			if len(looks) == 0 || !isRegistry(looks[0].Args[0]) || looks[0].Args[1] != cpVal(k.rt) {
+				good, why = false, fmt.Sprintf("for a type like %s the schema registry is not the first thing consulted with the type itself", k.name)
+				continue
+			}
+			tup, _ := looks[0].Result.(cpTuple)
+			if len(tup.Vs) != 2 {
+				return false, false, ""
+			}
+			okU, _ := tup.Vs[1].(cpUnk)
+			if o.Decided[okU.ID] {
+				sawHit = true
+				if _, errNil := o.Results[1].(cpNil); !errNil || o.Results[0] != tup.Vs[0] {
+					good, why = false, fmt.Sprintf("for a registered type like %s what is returned is not the registered schema as it stands", k.name)
+				}
+				continue
+			}
+			if k.sub != nil {
+				if _, errNil := o.Results[1].(cpNil); errNil {
+					subLooked := false
+					for _, l := range looks[1:] {
+						if isRegistry(l.Args[0]) && l.Args[1] == cpVal(k.sub) {
+							subLooked = true
+						}
+					}
+					if !subLooked {
+						good, why = false, fmt.Sprintf("the element or field type of %s is not looked up in the schema registry: a registered type nested in it would not get its registered schema", k.name)
+					}
+				}
+			}
+		}
+		if !sawHit {
+			good, why = false, fmt.Sprintf("no outcome returns a registered schema for a type like %s", k.name)
+		}
+	}
+	// a pointer to a registered type: whether the registered schema is passed through or wrapped in [null, S] must
+	// depend on what that schema is (already a union, or an array or a map), not on the Go kind of the type
+	for _, ek := range []reflect.Kind{reflect.Slice, reflect.Struct, reflect.Int64} {
+		elem := cpRTypeOfKind(ek, false)
+		elem.ID, elem.Name = "fx.Named"+ek.String(), "Named"+ek.String()
+		rt := &cpRType{ID: "*" + elem.ID, Kind: int64(reflect.Ptr), Elem: elem, Size: 8}
+		outs, _, ok, _ := cpFoldOpt(P, root, []cpVal{rt}, nil)
+		if !ok {
+			return false, false, ""
+		}
+		for _, o := range outs {
+			if o.Panics || len(o.Results) != 2 {
+				continue
+			}
+			if _, errNil := o.Results[1].(cpNil); !errNil {
+				continue
+			}
+			var looks []cpCall
+			for _, cl := range o.Calls {
+				if cl.Callee == "maplookup" && isRegistry(cl.Args[0]) {
+					looks = append(looks, cl)
+				}
+			}
+			if len(looks) < 2 || looks[0].Args[1] != cpVal(rt) || looks[1].Args[1] != cpVal(elem) {
+				continue
+			}
+			t0, _ := looks[0].Result.(cpTuple)
+			t1, _ := looks[1].Result.(cpTuple)
+			if len(t0.Vs) != 2 || len(t1.Vs) != 2 {
+				continue
+			}
+			ok0, _ := t0.Vs[1].(cpUnk)
+			ok1, _ := t1.Vs[1].(cpUnk)
+			S, isS := t1.Vs[0].(cpUnk)
+			if o.Decided[ok0.ID] || !o.Decided[ok1.ID] || !isS {
+				continue // the pointer type itself is registered, or the element is not
+			}
+			if ru, isU := o.Results[0].(cpUnk); isU && ru.ID == S.ID {
+				// passed through bare: only on the strength of a test of the registered schema's own type
+				tested := false
+				for _, t := range []string{"union", "array", "map"} {
+					if o.Decided["cmp:"+S.ID+".Type=="+t] {
+						tested = true
+					}
+				}
+				if !tested {
+					good, why = false, fmt.Sprintf("behind a pointer a registered type of Go kind %s gets its registered schema bare without that schema having been found to be a union, an array or a map: the Go kind overrides the registration, and a nil pointer has no encoding", ek)
+				}
+				continue
+			}
+			// otherwise [null, S]
+			uv, _ := cpFieldByName(o.Results[0], "Union")
+			sl, isSl := uv.(cpSlice)
+			wrapped := isSl && len(sl.Elems) == 2
+			if wrapped {
+				tv, _ := cpFieldByName(sl.Elems[0].V, "Type")
+				ts, isStr := tv.(cpStr)
+				su, isU := sl.Elems[1].V.(cpUnk)
+				wrapped = isStr && ts.V == "null" && isU && su.ID == S.ID
+			}
+			if !wrapped {
+				good, why = false, fmt.Sprintf("behind a pointer a registered type of Go kind %s gets neither its registered schema nor [null, that schema]", ek)
+			}
+		}
+	}
+	return true, good, why
 }
